@@ -22,7 +22,7 @@ RULE = (
     "non-trivial = multi-stage route (ceil(log(n_in)/log(max_branch))>=2) or n_in != n_out; distinct by (n_in,n_out,max_branch,method,key)"
 )
 ASSUMPTIONS = ["p2p shuffle unreachable (distributed not installed)", "partition contents compared as multisets (order inside a shuffled partition is unspecified)"]
-BUDGET_S = {"quick": 170, "thorough": 3000}
+BUDGET_S = {"quick": 170, "thorough": 900}
 NO_FRESH_CONFIRM = False
 
 KEYS = ["int", "float", "str", "cat", "two", "index", "series"]
